@@ -11,4 +11,15 @@ open Strengths.Gen.PyIdioms
 and reads dictionaries by key) -/
 theorem rdscript_value_semantic : valueSemantic inv_rdscript = true := by decide +kernel
 
+/-- `rdscript.py` never aliases an array on purpose: no `np.asarray`, `np.frombuffer`, `.view(…)`, `memoryview` — what a function
+returns is a fresh object (the model's values are immutable; this is the source fact that lets mutation of a returned
+object be ignored) -/
+theorem rdscript_no_views : views_rdscript = [] := by decide +kernel
+
+/-- a script owns its system and its units system (`copy()` on assignment); `RDScript.copy` is a deep copy -/
+theorem rdscript_copies :
+    copies_rdscript =
+      [("RDScript.system", "system.copy()"), ("RDScript.t_max", "self._t_max.copy()"), ("RDScript.units_system", "units_system.copy()"), ("RDScript.copy", "copy.deepcopy(self)")] := by
+  decide +kernel
+
 end Strengths.PyIdioms
